@@ -3,7 +3,21 @@
 use crate::util::*;
 
 pub fn jstr(s: &str) -> String {
-  format!("\"{}\"", s.replace('\\', "\\\\").replace('"', "\\\""))
+  let mut o = String::with_capacity(s.len() + 2);
+  o.push('"');
+  for c in s.chars() {
+    match c {
+      '\\' => o.push_str("\\\\"),
+      '"' => o.push_str("\\\""),
+      '\n' => o.push_str("\\n"),
+      '\r' => o.push_str("\\r"),
+      '\t' => o.push_str("\\t"),
+      c if (c as u32) < 0x20 => o.push_str(&format!("\\u{:04x}", c as u32)),
+      c => o.push(c),
+    }
+  }
+  o.push('"');
+  o
 }
 
 pub fn fail(kind: &str, fields: &[(&str, String)]) {
